@@ -1,0 +1,90 @@
+//go:build verif
+
+package session
+
+// Contracts for the deductive checker in /verif (comment-only; compiled only under the verif tag).
+
+//@ pure func sessOth(p *Participant, a Int) Int = seqat(p.otherParticipantsOrdered(), a, int)
+
+// peer id's round-2 opening of its common contribution matches the commitment it broadcast in round 1
+//@ pure func commonOK(p *Participant, inB V, com hashcom.Commitment, id sharing.ID) bool = commonCommitmentKey.Open(com, res(inB.Get(id), 0).CommonContribution[:], res(inB.Get(id), 0).CommonContributionWitness) == nil
+// peer id's round-3 opening of its pairwise contribution matches the commitment it sent us in round 2, under OUR key
+//@ pure func pairOK(p *Participant, uIn V, id sharing.ID) bool = p.commitmentKeys[p.id].Open(p.pairwiseContributionCommitments[id], res(uIn.Get(id), 0).PairwiseContribution[:], res(uIn.Get(id), 0).PairwiseContributionWitness) == nil
+
+// Round 3 completes only if EVERY other party's opened common contribution matches its round-1 commitment; a
+// mismatch is blamed on a party of the session.
+//@ func (*Participant).Round3
+//@   property C10, C04
+//@   ensures err == nil ==> forall a Int :: 0 <= a && a < seqlen(p.otherParticipantsOrdered()) ==> commonOK(p, inB, old(p.commonContributionCommitments)[sessOth(p, a)], sessOth(p, a))
+//@   ensures err != nil ==> forall x V :: culprit(err, x) ==> exists a Int :: 0 <= a && a < seqlen(p.otherParticipantsOrdered()) && x == box(sessOth(p, a))
+//@   ensures err == nil ==> p.round == old(p.round) + 1
+//@   loop range(p.otherParticipantsOrdered())
+//@     invariant forall a Int :: 0 <= a && a < $i ==> commonOK(p, inB, old(p.commonContributionCommitments)[sessOth(p, a)], sessOth(p, a))
+//@     invariant p.round == old(p.round)
+//@   loop range(p.otherParticipantsOrdered())#2
+//@     invariant p.round == old(p.round)
+
+// Round 4 yields a context only if EVERY other party's opened pairwise contribution matches the commitment it sent
+// in round 2 (checked under this party's own commitment key); a mismatch is blamed on a party of the session.
+//@ func (*Participant).Round4
+//@   property C10, C04
+//@   ensures err == nil ==> forall a Int :: 0 <= a && a < seqlen(p.otherParticipantsOrdered()) ==> pairOK(p, uIn, sessOth(p, a))
+//@   ensures err != nil ==> forall x V :: culprit(err, x) ==> exists a Int :: 0 <= a && a < seqlen(p.otherParticipantsOrdered()) && x == box(sessOth(p, a))
+//@   loop range(p.sortedQuorum)
+//@     invariant true
+//@   loop range(p.otherParticipantsOrdered())
+//@     invariant forall a Int :: 0 <= a && a < $i ==> pairOK(p, uIn, sessOth(p, a))
+//@     invariant ck == p.commitmentKeys[p.id]
+
+// Message validation is structural and blames nobody by itself.
+//@ func (*Round1Broadcast).Validate
+//@   property C04
+//@   purefn
+//@   ensures forall x V :: !culprit(result, x)
+//@ func (*Round2Broadcast).Validate
+//@   property C04
+//@   purefn
+//@   ensures forall x V :: !culprit(result, x)
+//@ func (*Round2P2P).Validate
+//@   property C04
+//@   purefn
+//@   ensures forall x V :: !culprit(result, x)
+//@ func (*Round3P2P).Validate
+//@   property C04
+//@   purefn
+//@   ensures forall x V :: !culprit(result, x)
+
+// The pairwise seed a context keeps for peer i is a sponge that absorbed, in this order, the SMALLER of the two
+// identifiers, the LARGER of the two, and the pairwise seed bytes: the two ends of a pair derive the same stream,
+// and no other pair does. Context construction blames nobody.
+//@ pure func pairSponge(id Int, i Int, s []byte) V = advance(absorb(absorb(absorb(cshakeInit(bytes(), strbytes(seedDomainSeparatorLabel)), encAny(binary.LittleEndian, box(ite(id < i, id, i)))), encAny(binary.LittleEndian, box(ite(id < i, i, id)))), s), 32)
+//@ func NewContext
+//@   property C10
+//@   ensures forall x V :: !culprit(err, x)
+//@   ensures err == nil ==> result != nil && result.holderID == id
+//@   ensures err == nil ==> forall t int :: 0 <= t && t < len(result.sortedQuorum) && result.sortedQuorum[t] != id ==> has(result.seeds, result.sortedQuorum[t]) && shk(result.seeds[result.sortedQuorum[t]]) == pairSponge(id, result.sortedQuorum[t], pairwiseSeeds[result.sortedQuorum[t]])
+//@   loop range(quorum.Iter())
+//@     invariant true
+//@   loop range(sortedQuorum)
+//@     invariant forall t int :: 0 <= t && t < $i && sortedQuorum[t] != id ==> has(seeds, sortedQuorum[t]) && allocated(seeds[sortedQuorum[t]]) && shk(seeds[sortedQuorum[t]]) == pairSponge(id, sortedQuorum[t], pairwiseSeeds[sortedQuorum[t]])
+
+// A sub-context keeps, for every other member j of the sub-quorum, a NEW sponge that absorbed 32 bytes squeezed from
+// (a copy of) the parent's pairwise sponge for j AND the encoding of the sub-quorum: contexts of different
+// sub-quorums therefore get different streams from the same parent seed. The parent's own sponges are not advanced.
+//@ func (*Context).SubContext
+//@   property C10
+// (input validity: the sponges stored in the context are existing objects)
+//@   requires forall j sharing.ID :: ctx.seeds[j] == nil || allocated(ctx.seeds[j])
+//@   ensures forall x V :: !culprit(err, x)
+//@   ensures err == nil ==> result != nil && result.holderID == ctx.holderID && result.sid == ctx.sid
+//@   ensures err == nil ==> forall t int :: 0 <= t && t < len(result.sortedQuorum) && result.sortedQuorum[t] != ctx.holderID ==> has(result.seeds, result.sortedQuorum[t]) && shk(result.seeds[result.sortedQuorum[t]]) == advance(absorb(absorb(cshakeInit(bytes(), strbytes(subContextDomainSeparatorLabel)), squeeze(shk(ctx.seeds[result.sortedQuorum[t]]), 32)), subQuorumData.Bytes()), 32)
+//@   ensures err == nil ==> forall j sharing.ID :: shk(ctx.seeds[j]) == old(shk(ctx.seeds[j]))
+//@   loop range(subQuorumSorted)
+//@     invariant forall j sharing.ID :: shk(ctx.seeds[j]) == old(shk(ctx.seeds[j]))
+//@     invariant forall j sharing.ID :: ctx.seeds[j] == nil || allocated(ctx.seeds[j])
+//@   loop range(subQuorumSorted)#2
+//@     invariant forall j sharing.ID :: ctx.seeds[j] == nil || allocated(ctx.seeds[j])
+//@     invariant forall t int :: 0 <= t && t < $i && subQuorumSorted[t] != ctx.holderID ==> has(subPairwiseSeeds, subQuorumSorted[t]) && allocated(subPairwiseSeeds[subQuorumSorted[t]]) && shk(subPairwiseSeeds[subQuorumSorted[t]]) == advance(absorb(absorb(cshakeInit(bytes(), strbytes(subContextDomainSeparatorLabel)), squeeze(shk(ctx.seeds[subQuorumSorted[t]]), 32)), subQuorumData.Bytes()), 32)
+//@     invariant forall j sharing.ID :: shk(ctx.seeds[j]) == old(shk(ctx.seeds[j]))
+//@   assert before "subPairwiseSeeds[id] = newSeed": has(ctx.seeds, id) && shk(newSeed) == advance(absorb(absorb(cshakeInit(bytes(), strbytes(subContextDomainSeparatorLabel)), squeeze(shk(ctx.seeds[id]), 32)), subQuorumData.Bytes()), 32)
+//@   assert before "subPairwiseSeeds[id] = newSeed": forall t int :: 0 <= t && t < $i && subQuorumSorted[t] != ctx.holderID ==> subPairwiseSeeds[subQuorumSorted[t]] != newSeed && shk(subPairwiseSeeds[subQuorumSorted[t]]) == advance(absorb(absorb(cshakeInit(bytes(), strbytes(subContextDomainSeparatorLabel)), squeeze(shk(ctx.seeds[subQuorumSorted[t]]), 32)), subQuorumData.Bytes()), 32)
